@@ -41,6 +41,9 @@ def run(ctx):
                 for op in ("with_map", "remove_map"):
                     exp = ("Ok" if op == "with_map" else "Err") if wf else "Err"
                     add(base + [{"op": op, "vec": "v", "pairs": [[k, "x"] for k in keys]}], exp, "label-request", "%s(%s).%s(keys %s)" % (kind, names, op, list(keys)))
+                    # the same request when the child those values denote already exists
+                    add(base + [{"op": "with", "vec": "v", "vals": ["x"] * arity}, {"op": op, "vec": "v", "pairs": [[k, "x"] for k in keys]}], "Ok" if wf else "Err", "label-request",
+                        "%s(%s): child exists, then %s(keys %s)" % (kind, names, op, list(keys)))
     # ---- (c) bucket lists (verdicts: Histogram.Accepted via HistGen, acceptance mode only)
     dd = {"MCB": "{NegInf, Fin(-1), NegZero, Fin(0), Fin(1), PosInf, NaN}", "MCO": "{Fin(0)}"}
     cfgh = "CONSTANTS\n  BVals <- MCB\n  OVals <- MCO\n  MaxB = 3\n  MaxO = 0\nSPECIFICATION Spec\nINVARIANTS Emit\nCHECK_DEADLOCK FALSE\n"
